@@ -435,11 +435,11 @@ static void check_message(int idx, const char *when, bool with_cont)
 	vf_fail(got.size() == e.size() ? "cxx:advance:message-content" : "cxx:advance:message-length", "%s (%s): message %d: got %zu bytes %s, expected %zu bytes %s; wire frame %s; %s",
 	        when, framing[C->fr].name, idx, got.size(), hex(got).c_str(), e.size(), hex(e).c_str(), frame_hex(idx).c_str(), ddesc().c_str());
 }
-/* 1 delivered, 0 nothing */
-static int do_advance(vf_rng *r)
+/* 1 delivered, 0 nothing, -1 reader was refused on a full ring and got space */
+static int advance_once(vf_rng *r)
 {
 	size_t qlen = C->dq->len;
-	bool ok, pend;
+	bool ok, pend, gave = false;
 
 	vf_at("decode_queue::advance");
 	vf_count("decode_queue::advance", 1);
@@ -474,6 +474,7 @@ static int do_advance(vf_rng *r)
 			if (C->dfix) { C->exhausted = true; vf_count("history:cxx-fixed-decode-ring-exhausted", 1); return 0; }
 			grow(C->dq, C->dgrow, "dec");
 			inv_dec("mpt_queue_prepare");
+			gave = true;
 		}
 	} else vf_count("advance:cxx-incomplete", 1);
 	if (C->delivered > C->received) {
@@ -483,7 +484,14 @@ static int do_advance(vf_rng *r)
 			vf_fail("cxx:decode_queue:stall", "frame %d (%zu bytes: %s) is completely in the decode queue, %d advance() calls delivered nothing; %s (%s)",
 			        C->received, flen, frame_hex(C->received).c_str(), C->futile, ddesc().c_str(), framing[C->fr].name);
 	}
-	return 0;
+	return gave ? -1 : 0;
+}
+static int do_advance(vf_rng *r)
+{
+	int ret, tries = 0;
+	/* space given to the reader is his: he uses it before the transport fills it */
+	while ((ret = advance_once(r)) < 0 && ++tries < 8) vf_count("advance:cxx-retry-with-space", 1);
+	return ret > 0;
 }
 static void do_reget(vf_rng *r)
 {
@@ -543,7 +551,7 @@ static void run_case(uint64_t idx, vf_rng *r)
 	if (ecap) { eq.base = vf_xalloc(ecap); memset(eq.base, 0xEE, ecap); eq.max = ecap; eq.off = vf_below(r, (uint32_t) ecap); }
 	if (dcap) { dq.base = vf_xalloc(dcap); memset(dq.base, 0xEE, dcap); dq.max = dcap; dq.off = vf_below(r, (uint32_t) dcap); }
 	if (c.efix && ecap / 3 < limit) limit = ecap / 3;
-	if (c.dfix && dcap / 4 < limit) limit = dcap / 4;
+	if (c.dfix && dcap / 5 < limit) limit = dcap / 5;
 	c.egrow = grows[vf_below(r, 5)]; c.dgrow = grows[vf_below(r, 5)];
 
 	int nmsg = vf_range(r, 5, vf_thorough ? 60 : 40);
